@@ -226,6 +226,7 @@ Inductive mutk := MNewBug | MAddComment | MAddCommentAndClose | MAddCommentAndRe
                 | MChangeLabels | MOpenBug | MCloseBug | MSetTitle.
 
 Record args := { a_wf : bool;              (* the request passes gqlgen's decoding and schema validation *)
+                 a_files_ok : bool;        (* every hash of `files` names a blob stored in the repository *)
                  a_repo_ok : bool;         (* repoRef absent, or names a registered repository *)
                  a_prefix : text;          (* prefix / targetPrefix *)
                  a_title : text; a_msg : text; a_files : list N;
@@ -292,20 +293,20 @@ Definition requested (m : mutk) (st : state) (tgt : target) (u : N) (a : args) :
   match m, tgt with
   | MNewBug, TRepo =>
       let title := cleanup1 (a_title a) in let msg := cleanup (a_msg a) in
-      if empty title || negb (safe1 title) || negb (safe msg) then Err EOther
+      if empty title || negb (safe1 title) || negb (safe msg) || negb (a_files_ok a) then Err EOther
       else Ok (fresh a 0, [OCreate (fresh a 0) u title msg (a_files a)])
   | MAddComment, TBug b =>
       let msg := cleanup (a_msg a) in
-      if negb (safe msg) then Err EOther else Ok (b, [OComment (fresh a 0) u msg (a_files a)])
+      if negb (safe msg) || negb (a_files_ok a) then Err EOther else Ok (b, [OComment (fresh a 0) u msg (a_files a)])
   | MAddCommentAndClose, TBug b =>
       let msg := cleanup (a_msg a) in
-      if negb (safe msg) then Err EOther else Ok (b, [OComment (fresh a 0) u msg (a_files a); OStatus (fresh a 1) u true])
+      if negb (safe msg) || negb (a_files_ok a) then Err EOther else Ok (b, [OComment (fresh a 0) u msg (a_files a); OStatus (fresh a 1) u true])
   | MAddCommentAndReopen, TBug b =>
       let msg := cleanup (a_msg a) in
-      if negb (safe msg) then Err EOther else Ok (b, [OComment (fresh a 0) u msg (a_files a); OStatus (fresh a 1) u false])
+      if negb (safe msg) || negb (a_files_ok a) then Err EOther else Ok (b, [OComment (fresh a 0) u msg (a_files a); OStatus (fresh a 1) u false])
   | MEditComment, TComment b c =>
       let msg := cleanup (a_msg a) in
-      if negb (safe msg) then Err EOther else Ok (b, [OEdit (fresh a 0) u c msg (a_files a)])
+      if negb (safe msg) || negb (a_files_ok a) then Err EOther else Ok (b, [OEdit (fresh a 0) u c msg (a_files a)])
   | MChangeLabels, TBug b =>
       let cur := sn_labels (compile (ops_of st b)) in
       let added := dedup_keep (fun x => negb (memT x cur)) (map cleanup1 (a_added a)) [] in
@@ -445,31 +446,35 @@ Ltac effect_tac H :=
   unfold effect_m in E; rewrite Q in E; unfold commit in E;
   exists u; split; [reflexivity|]; split; [exact I|];
   unfold requested in Q; destruct tgt; try discriminate;
-  rewrite ?safe_cleanup in Q; cbn [negb] in Q.
+  rewrite ?safe_cleanup in Q; cbn [negb orb] in Q.
 
 Lemma effect_addComment st a user st' p : mutation_step MAddComment st a user = (st', Ok p) ->
   exists u, user = Some u /\ memN u (st_idents st) = true /\ resolve_m MAddComment st a = Ok (TBug (p_bug p)) /\
+    a_files_ok a = true /\
     let new := [OComment (fresh a 0) u (cleanup (a_msg a)) (a_files a)] in
     st' = append_ops st (p_bug p) new /\ p_snap p = compile (ops_of st (p_bug p) ++ new) /\ p_ops p = map op_id new.
-Proof. intros H. effect_tac H. inversion Q; subst. inversion E; subst. cbn. auto. Qed.
+Proof. intros H. effect_tac H. destruct (a_files_ok a) eqn:FK; cbn [negb] in Q; [|discriminate]. inversion Q; subst. inversion E; subst. cbn. auto 10. Qed.
 
 Lemma effect_addCommentAndClose st a user st' p : mutation_step MAddCommentAndClose st a user = (st', Ok p) ->
   exists u, user = Some u /\ memN u (st_idents st) = true /\ resolve_m MAddCommentAndClose st a = Ok (TBug (p_bug p)) /\
+    a_files_ok a = true /\
     let new := [OComment (fresh a 0) u (cleanup (a_msg a)) (a_files a); OStatus (fresh a 1) u true] in
     st' = append_ops st (p_bug p) new /\ p_snap p = compile (ops_of st (p_bug p) ++ new) /\ p_ops p = map op_id new.
-Proof. intros H. effect_tac H. inversion Q; subst. inversion E; subst. cbn. auto. Qed.
+Proof. intros H. effect_tac H. destruct (a_files_ok a) eqn:FK; cbn [negb] in Q; [|discriminate]. inversion Q; subst. inversion E; subst. cbn. auto 10. Qed.
 
 Lemma effect_addCommentAndReopen st a user st' p : mutation_step MAddCommentAndReopen st a user = (st', Ok p) ->
   exists u, user = Some u /\ memN u (st_idents st) = true /\ resolve_m MAddCommentAndReopen st a = Ok (TBug (p_bug p)) /\
+    a_files_ok a = true /\
     let new := [OComment (fresh a 0) u (cleanup (a_msg a)) (a_files a); OStatus (fresh a 1) u false] in
     st' = append_ops st (p_bug p) new /\ p_snap p = compile (ops_of st (p_bug p) ++ new) /\ p_ops p = map op_id new.
-Proof. intros H. effect_tac H. inversion Q; subst. inversion E; subst. cbn. auto. Qed.
+Proof. intros H. effect_tac H. destruct (a_files_ok a) eqn:FK; cbn [negb] in Q; [|discriminate]. inversion Q; subst. inversion E; subst. cbn. auto 10. Qed.
 
 Lemma effect_editComment st a user st' p : mutation_step MEditComment st a user = (st', Ok p) ->
   exists u, user = Some u /\ memN u (st_idents st) = true /\ exists c, resolve_m MEditComment st a = Ok (TComment (p_bug p) c) /\
+    a_files_ok a = true /\
     let new := [OEdit (fresh a 0) u c (cleanup (a_msg a)) (a_files a)] in
     st' = append_ops st (p_bug p) new /\ p_snap p = compile (ops_of st (p_bug p) ++ new) /\ p_ops p = map op_id new.
-Proof. intros H. effect_tac H. inversion Q; subst. inversion E; subst. cbn. eauto 10. Qed.
+Proof. intros H. effect_tac H. destruct (a_files_ok a) eqn:FK; cbn [negb] in Q; [|discriminate]. inversion Q; subst. inversion E; subst. cbn. eauto 12. Qed.
 
 Lemma effect_openBug st a user st' p : mutation_step MOpenBug st a user = (st', Ok p) ->
   exists u, user = Some u /\ memN u (st_idents st) = true /\ resolve_m MOpenBug st a = Ok (TBug (p_bug p)) /\
@@ -516,12 +521,14 @@ Proof. intros H. effect_tac H.
 Lemma effect_newBug st a user st' p : mutation_step MNewBug st a user = (st', Ok p) ->
   exists u, user = Some u /\ memN u (st_idents st) = true /\ a_wf a = true /\ a_repo_ok a = true /\
     empty (cleanup1 (a_title a)) = false /\
+    a_files_ok a = true /\
     let new := [OCreate (fresh a 0) u (cleanup1 (a_title a)) (cleanup (a_msg a)) (a_files a)] in
     p_bug p = fresh a 0 /\
     st' = {| st_bugs := st_bugs st ++ [{| bg_id := fresh a 0; bg_ops := new |}]; st_idents := st_idents st; st_blobs := st_blobs st |} /\
     p_snap p = compile new /\ p_ops p = map op_id new.
-Proof. intros H. effect_tac H. rewrite ?safe1_cleanup1 in Q. cbn [negb] in Q. rewrite !orb_false_r in Q.
-  destruct (empty (cleanup1 (a_title a))) eqn:Em; [discriminate|].
+Proof. intros H. effect_tac H. rewrite ?safe1_cleanup1 in Q. cbn [negb] in Q. rewrite ?orb_false_r in Q.
+  destruct (empty (cleanup1 (a_title a))) eqn:Em; [discriminate|]. cbn [orb] in Q.
+  destruct (a_files_ok a) eqn:FK; cbn [negb] in Q; [|discriminate].
   inversion Q; subst. inversion E; subst. cbn.
   unfold resolve_m in R. destruct (a_wf a); [|discriminate]. destruct (a_repo_ok a); [|discriminate]. auto 12. Qed.
 
@@ -546,5 +553,5 @@ Definition ex_st : state :=
   {| st_bugs := [{| bg_id := 1; bg_ops := [OCreate 1 7 [116] [109] []] |}; {| bg_id := 2; bg_ops := [OCreate 2 8 [117] [] []] |}];
      st_idents := [7; 8]; st_blobs := [] |}.
 Definition ex_args : args :=
-  {| a_wf := true; a_repo_ok := true; a_prefix := [97; 98]; a_title := [32; 104; 105; 1]; a_msg := [13; 10; 111; 107; 32];
+  {| a_wf := true; a_files_ok := true; a_repo_ok := true; a_prefix := [97; 98]; a_title := [32; 104; 105; 1]; a_msg := [13; 10; 111; 107; 32];
      a_files := [5]; a_added := [[108]; [108]]; a_removed := []; a_fresh := [9; 10] |}.
